@@ -142,3 +142,11 @@ claim("C03",
        "no decision depends on strict mode; missing or non-numeric BodyLength is an error. It does NOT decide that every damaged neighbour of a valid message fails these checks (that is a statement about all 256·n variants; e.g. a NUL inserted into the BeginString value is invisible to both checks).",
   note="Trusted: go/ssa; canonical rendering; the serializer's layout as established by C01.",
   design_ref="DESIGN.md §3 C03")
+
+claim("C02",
+  technique="static codec-pair table check, exhaustiveness/type-preservation analysis of the template switches over go/ssa paths, loop-shape and operand-identity checks of the group decoder, linear-form comparison of slice cuts",
+  text="Structural necessary conditions for round-tripping, each of which breaks it when broken: formatter/parser of every value type are an inverse pair (Float keeps and prefers its source bytes); templates are rebuilt with the same kinds and concrete value types at the same positions; "
+       "each group entry gets a fresh template created inside the per-entry loop, filled from its own piece and added once, with the number of pieces checked against the parsed count; a value is exactly the bytes after its anchored 'tag=' up to the next delimiter; splitGroup partitions its input; item loops visit every item. "
+       "Equality of parsed with original values over all inputs, and which of several well-anchored occurrences is found, are NOT decided.",
+  note="Trusted: go/ssa; the codec table (strconv/time pairs are inverses on the property's value domain); canonical rendering; the linear forms of checker/an/linprove.go.",
+  design_ref="DESIGN.md §3 C02, §2 E8")
